@@ -618,7 +618,7 @@ ROUND2B = {
  "C08": " Second pass (web half): web_parse_rejects_rejected_text, web_task_stores_error_for_rejected_text, web_no_answer_for_rejected_text (over every history, a document whose code is rejected never holds a framework or a result, for both parsings).",
  "C09": " Second pass: cli_bridge_is_this_bridge / cli_hybrid_step_is_this_hybrid_step (the bridge the driver and C15 run IS the bridge of these theorems); dump_spec_holds_for_reduced_shared_diagrams: the project's own store as a fully lawful library (Bio.storeLib, Bio.storeLawful) whose dumps are reduced, shared and skip levels, as real biodivine dumps do; biodivine_from_parser_any_order.",
  "C10": " Second pass: an_sort_is_varsort_alphanum, varsort_alphanum_unique (the natural order is total, transitive and antisymmetric on all labels: NatLexOrder); output invariance composed for the counting, pre-filter, nogood and two-valued sections.",
- "C11": " Second pass: query_answers_exact (queries get real content: counts, paths, depth and dependency sets against truth tables), ORDER across histories: stable_answers_equal_after_history, complete_order_equal_after_history, ng_order_history_independent (the nogood search lists the same decided parts in the same order on DIFFERENT node tables, every heuristic and bound: its heuristics read only positions, path counts and dependency sets); order_across_histories_partial (open: the two counting searches); "
+ "C11": " Second pass: query_answers_exact (queries get real content: counts, paths, depth and dependency sets against truth tables), ORDER across histories: stable_answers_equal_after_history, complete_order_equal_after_history, ng_order_history_independent (the nogood search lists the same decided parts in the same order on DIFFERENT node tables, every heuristic and bound: its heuristics read only positions, path counts and dependency sets); order_across_histories (ALL call kinds incl. both counting searches: canonical_cube_list - the path cubes of a diagram are a function of its Boolean function on well-formed tables - and a relational lock-step of the counting machine over two node tables, count_order_history_independent); "
         "memoised_count_is_the_reimport_exception; same_seed_same_answers for an abstract deterministic generator (StdRng itself is not modelled); history_after_roundtrip_lists / searches_after_roundtrip_lists / nogood_after_roundtrip_lists (with C14: after both persistence round trips every history returns the SAME LISTS - order and handle numbers).",
  "C14": " Second pass: the CLI's --export / --import in a modelled FILE SYSTEM (CliIO: runTextIO over a finite map path -> text): export_never_overwrites_fs (every path that existed keeps its content, for every invocation), export_writes_only_target, export_happens_iff, export_then_import_prints_same (same blocks, same order, no halting hypothesis); "
         "the REAL exported file of every cliexport case is parsed by the verified reader, compared with the state the model builds from the same input text, re-printed byte for byte, and imported by the model's --import arm (cliexportfile).",
